@@ -64,7 +64,7 @@ Section UndoEditor.
   Proof. unfold refresh_line_with_msg. lc_auto; apply lc_refresh. Qed.
   Lemma lc_move_cursor : keeps_lc (move_cursor U cfg). Proof. unfold move_cursor. lc_auto. Qed.
   Lemma lc_move_cursor_to_end : keeps_lc move_cursor_to_end. Proof. unfold move_cursor_to_end. lc_auto. Qed.
-  Lemma lc_beep : keeps_lc beep. Proof. unfold beep. lc_auto. Qed.
+  Lemma lc_beep : keeps_lc (beep cfg). Proof. unfold beep. lc_auto. Qed.
   Lemma lc_backup : keeps_lc backup. Proof. unfold backup. lc_auto. Qed.
 
   (* the three ways a line-buffer operation runs inside the editor *)
